@@ -16,6 +16,7 @@ type CheckDef struct {
 }
 
 const ioc = "github.com/go-kid/ioc"
+const techDefault = "bounded symbolic execution of go/ssa + z3 (QF_BV), native replay of counterexamples"
 
 func tierPick(tier string, quick, thorough int) int {
 	if tier == "thorough" {
@@ -52,6 +53,90 @@ func checkDefs() map[string]*CheckDef {
 			DesignRef: "DESIGN.md §3 C19",
 		},
 	}
+	fac := ioc + "/container/factory"
+	mc := func(name, entry string, p map[string]int, cover ...string) RunSpec {
+		return RunSpec{Name: name, Pkg: fac, Entry: entry, Params: p, MustCover: cover, Opts: ExecOpts{Termination: true, MaxSteps: 400000}}
+	}
+	rh := func(name, entry string, p map[string]int, cover ...string) RunSpec {
+		return RunSpec{Name: name, Pkg: fac, Entry: entry, Params: p, MustCover: cover, Opts: ExecOpts{PermuteRange: true, Termination: true, MaxSteps: 400000}}
+	}
+	P := func(kv ...int) map[string]int { return nil }
+	_ = P
+	defs = append(defs,
+		&CheckDef{ID: "C01", Title: "One shared instance",
+			Runs: func(tier string) []RunSpec {
+				r := []RunSpec{
+					mc("mc-n2-all-points", "VerifC01", map[string]int{"N": 2, "POINTS": 7}, "start ok", "early reference served"),
+					mc("mc-n3-single", "VerifC01", map[string]int{"N": 3, "POINTS": 1}, "start ok"),
+					mc("wrap-n2", "VerifC03", map[string]int{"N": 2, "POINTS": 5}, "start ok", "wrapped"),
+				}
+				if tier == "thorough" {
+					r = append(r, mc("mc-n3-single+slice", "VerifC01", map[string]int{"N": 3, "POINTS": 5}, "start ok"))
+				}
+				return r
+			},
+			LevelText: "Bounded symbolic model checking of the real defaultFactory.Refresh/doGetComponent/createComponent/doCreateComponent/populateComponent/getEarlyBeanReference, the real three-level singleton registry, Property.Inject and CreateProxy on every dependency graph over n harness components (edges chosen when the holder is populated; self-edges, cycles, slices): after a successful start every field and slice element that resolved to a component is identical (interface identity) to what GetComponentByName returns, also when one component is wrapped by a post-processor.",
+			LevelNote: "Bounds: n<=2 with two single points and a slice point, n<=3 with one single point (thorough: n=3 with single+slice); graph edges are enumerated by forking, not symbolic; resolution of the edges (by type/name/qualifier) is checked separately (C06-C08). Trusted: go/ssa, engine semantics incl. the reflect model (validated by native replay of sampled paths), z3.",
+			Technique: techDefault, DesignRef: "DESIGN.md §3 C01"},
+		&CheckDef{ID: "C02", Title: "Cycles resolve, start-up terminates",
+			Runs: func(tier string) []RunSpec {
+				r := []RunSpec{
+					mc("mc-n2-req-mix", "VerifC02", map[string]int{"N": 2, "POINTS": 5}, "start ok", "start failed"),
+					mc("mc-n3-single-req-mix", "VerifC02", map[string]int{"N": 3, "POINTS": 1}, "start ok", "start failed"),
+					rh("self-candidate", "VerifC06", map[string]int{"K": 1}, "start ok"),
+				}
+				if tier == "thorough" {
+					r = append(r, mc("mc-n2-all-points", "VerifC02", map[string]int{"N": 2, "POINTS": 7}, "start ok"))
+					r = append(r, mc("mc-n3-single+slice", "VerifC02", map[string]int{"N": 3, "POINTS": 5}, "start ok"))
+				}
+				return r
+			},
+			LevelText: "Bounded symbolic model checking of the real factory/registry/Inject code on every directed graph over n components with required/optional bits per point: every path ends within the step budget (unwinding assertion = termination), start-up succeeds unless a required point can only be satisfied by its own holder, no field is ever wired to its holder, every required point holds its target.",
+			LevelNote: "Bounds: n<=2 (single+slice), n<=3 (single point); step budget 400k SSA instructions per path (max seen ~15k). Hundreds of nodes are outside the claim.",
+			Technique: techDefault, DesignRef: "DESIGN.md §3 C02"},
+		&CheckDef{ID: "C03", Title: "No stale version under substitution",
+			Runs: func(tier string) []RunSpec {
+				r := []RunSpec{
+					mc("wrap-n2", "VerifC03", map[string]int{"N": 2, "POINTS": 5}, "start ok", "start failed", "wrapped"),
+					mc("wrap-n3-single", "VerifC03", map[string]int{"N": 3, "POINTS": 1}, "start ok", "wrapped"),
+				}
+				if tier == "thorough" {
+					r = append(r, mc("wrap-n2-all-points", "VerifC03", map[string]int{"N": 2, "POINTS": 7}, "start ok", "wrapped"))
+				}
+				return r
+			},
+			LevelText: "Bounded symbolic model checking of the real factory with a substituting SmartInstantiationAware post-processor whose behaviour (which component is wrapped, at early reference and/or after initialization, same or fresh wrapper) is explored exhaustively on every graph over n components: after a successful start every holder (including the raw object inside a wrapper) sees the version GetComponentByName publishes.",
+			LevelNote: "Bounds: n<=2 (single+slice points), n<=3 (single point), one wrapped component; wrapping at before-initialization is outside (the callback contract for it is undocumented).",
+			Technique: techDefault, DesignRef: "DESIGN.md §3 C03"},
+		&CheckDef{ID: "C04", Title: "Singleton cache protocol",
+			Runs: func(tier string) []RunSpec {
+				r := []RunSpec{
+					{Name: "step-lemmas", Pkg: ioc + "/container/support", Entry: "VerifC04Step", MustCover: []string{"creation failed", "creation succeeded", "op lookup", "op publish"}},
+					mc("histories-n2", "VerifC04B", map[string]int{"N": 2, "POINTS": 1, "FAULTS": 1, "LOOKUPS": 2, "LAZY": 1}, "start failed", "lookup after failure reports an error"),
+				}
+				if tier == "thorough" {
+					r = append(r, mc("histories-n2-slice", "VerifC04B", map[string]int{"N": 2, "POINTS": 5, "FAULTS": 2, "LOOKUPS": 2, "LAZY": 1}, "start failed"))
+				}
+				return r
+			},
+			LevelText: "Tier A: one registry operation (lookup with/without early references, creation with a nested script, publish, add factory, remove, in-creation query) of the real defaultSingletonComponentRegistry from an ARBITRARY pre-state of its three caches and in-creation set over two symbolic names, compared observationally with a reference model of the intended protocol - one inductive step, so histories of any length are covered. Tier B: real factory histories with failing callbacks and lookups after the failure.",
+			LevelNote: "Data bound: two one-byte names (equal or distinct), fixed distinct metas per cache role, nesting depth 1, <=2 lookups during creation. Not labelled proof because the data domain is bounded.",
+			Technique: techDefault + "; step-wise refinement check against a reference model", DesignRef: "DESIGN.md §3 C04"},
+		&CheckDef{ID: "C05", Title: "Lifecycle order",
+			Runs: func(tier string) []RunSpec {
+				r := []RunSpec{
+					mc("mc-n2-lazy", "VerifC05", map[string]int{"N": 2, "POINTS": 7, "LAZY": 1}, "start ok", "acyclic edge", "lazy component not needed"),
+					mc("mc-n3-single-lazy", "VerifC05", map[string]int{"N": 3, "POINTS": 1, "LAZY": 1}, "start ok", "acyclic edge"),
+				}
+				if tier == "thorough" {
+					r = append(r, mc("mc-n3-lazy", "VerifC05", map[string]int{"N": 3, "POINTS": 5, "LAZY": 1}, "start ok"))
+				}
+				return r
+			},
+			LevelText: "Bounded symbolic model checking of the real Refresh/InitializeComponent/invokeInitMethods/applyPostProcess* with a ghost event log: per component config < before-init < AfterPropertiesSet < Init < after-init, each exactly once; injection points populated before the before-init callback; a dependency that does not depend back is fully initialised before its dependant's Init; lazy components initialised iff an eager one needs them.",
+			LevelNote: "Bounds: n<=2 (all points) and n<=3 (single point), lazy/eager mix; thorough n=3 single+slice. User post-processors returning nil and wrapping are outside.",
+			Technique: techDefault, DesignRef: "DESIGN.md §3 C05"},
+	)
 	m := map[string]*CheckDef{}
 	for _, d := range defs {
 		m[d.ID] = d
